@@ -8,14 +8,14 @@ from vf.worker import R
 
 PROPERTY = "C39"
 LEVEL = "exploration"
-RULE = ("case = one generated run (event_model.compose_run: 1-3 streams with different data keys, 0-6 events each, seeded "
+RULE = ("case = 1-3 consecutive generated runs through ONE dispatcher instance, each judged on its own (event_model.compose_run: 1-3 streams with different data keys, 0-6 events each, seeded "
         "interleaving) fed through a LiveDispatcher subclass in {pass-through base class, transforming (adds a derived "
         "key), stream-splitting (routes events to process_event(stream_name=...) by parity), id_args-splitting}; oracle on "
         "the documents a subscriber of the LiveDispatcher receives: the C01 stream oracle (one start/stop, references, "
         "schema, unique uids), per emitted stream (descriptor name) the event seq_nums are exactly 1..N in order, and the "
         "re-emitted RunStop's num_events gives N for every stream; distinct = (#streams, events per stream, subclass kind)")
 ASSUMPTIONS = ["a 'stream' of the re-emitted run is identified by the name of the re-emitted descriptor"]
-REQUIRED_COUNTERS = {"runs": 300, "events_reemitted": 2000, "multi_stream_runs": 150}
+REQUIRED_COUNTERS = {"runs": 300, "events_reemitted": 2000, "multi_stream_runs": 150, "later_runs_of_one_dispatcher": 100}
 MANIFEST = {
     "technique": "offline document-stream oracle (C01 checker + per-stream numbering + num_events) over the output of real "
                  "LiveDispatcher subclasses fed with generated runs",
@@ -62,53 +62,70 @@ def run_case(case):
         sub = {"start": i, "count": 1, "seed": case["seed"]}
         kind = KINDS[i % len(KINDS)]
         ld = make_dispatcher(kind)
-        got = []
-        ld.subscribe(lambda name, doc: got.append((name, doc)))
-        run = compose_run(metadata={"purpose": "c39"})
-        nstreams = rng.randint(1, 3)
-        names = ["primary", "baseline", "aux"][:nstreams]
+        all_got = []
+        ld.subscribe(lambda name, doc: all_got.append((name, doc)))
+        nruns = rng.choice([1, 1, 2, 3])     # the SAME dispatcher instance sees consecutive runs; each is judged on its own
         problems = []
-        try:
-            ld("start", run.start_doc)
-            descs = {}
-            for k, nm in enumerate(names):
-                b = run.compose_descriptor(name=nm, data_keys={f"{nm}_x": {"dtype": "number", "shape": [], "source": "s"},
-                                                               f"{nm}_y": {"dtype": "number", "shape": [], "source": "s"}})
-                descs[nm] = b
-                ld("descriptor", b.descriptor_doc)
-            counts = {nm: rng.randint(0, 6) for nm in names}
-            order = [nm for nm in names for _ in range(counts[nm])]
-            rng.shuffle(order)
-            for nm in order:
-                ev = descs[nm].compose_event(data={f"{nm}_x": rng.randint(0, 9), f"{nm}_y": 1.5},
-                                             timestamps={f"{nm}_x": 1.0, f"{nm}_y": 1.0})
-                ld("event", ev)
-            ld("stop", run.compose_stop())
-        except Exception as e:  # noqa: BLE001
-            problems.append((f"raises:{type(e).__name__}", repr(e)[:200]))
-        counters = {"runs": 1, "events_reemitted": sum(1 for n, _ in got if n == "event"), "multi_stream_runs": int(nstreams >= 2)}
-        if not problems:
-            p1, _, _ = check_stream([(n, d) for n, d in got], engine_idle=True, validate=True)
-            problems += [(f"stream:{k}", d) for k, d in p1]
-            desc_name = {d["uid"]: d.get("name") for n, d in got if n == "descriptor"}
-            seqs = {}
-            for n, d in got:
-                if n == "event":
-                    seqs.setdefault(desc_name.get(d["descriptor"]), []).append(d["seq_num"])
-            stop = next((d for n, d in got if n == "stop"), None)
-            for nm, sq in seqs.items():
-                if sq != list(range(1, len(sq) + 1)):
-                    problems.append((f"seq_nums-not-1..N:{'multi' if nstreams > 1 else 'single'}-stream", f"stream {nm}: {sq}"))
-            if stop is not None:
-                ne = stop.get("num_events", {})
-                exp = {nm: len(sq) for nm, sq in seqs.items()}
-                for nm, n_ in exp.items():
-                    if ne.get(nm) != n_:
-                        problems.append(("num_events-wrong", f"stream {nm}: num_events {ne.get(nm)} but {n_} events emitted; full {ne}"))
-                        break
-            # nothing lost
-            if counters["events_reemitted"] != len(order):
-                problems.append(("events-lost-or-duplicated", f"{counters['events_reemitted']} re-emitted, {len(order)} received"))
+        counters = {"runs": 0, "events_reemitted": 0, "multi_stream_runs": 0, "later_runs_of_one_dispatcher": 0}
+        nstreams, counts, order = 0, {}, []
+        for rno in range(nruns):
+            if problems:
+                break
+            mark = len(all_got)
+            run = compose_run(metadata={"purpose": "c39"})
+            nstreams = rng.randint(1, 3)
+            names = rng.sample(["primary", "baseline", "aux"], nstreams) if rno else ["primary", "baseline", "aux"][:nstreams]
+            try:
+                ld("start", run.start_doc)
+                descs = {}
+                for k, nm in enumerate(names):
+                    b = run.compose_descriptor(name=nm, data_keys={f"{nm}_x": {"dtype": "number", "shape": [], "source": "s"},
+                                                                   f"{nm}_y": {"dtype": "number", "shape": [], "source": "s"}})
+                    descs[nm] = b
+                    ld("descriptor", b.descriptor_doc)
+                counts = {nm: rng.randint(0, 6) for nm in names}
+                order = [nm for nm in names for _ in range(counts[nm])]
+                rng.shuffle(order)
+                for nm in order:
+                    ev = descs[nm].compose_event(data={f"{nm}_x": rng.randint(0, 9), f"{nm}_y": 1.5},
+                                                 timestamps={f"{nm}_x": 1.0, f"{nm}_y": 1.0})
+                    ld("event", ev)
+                ld("stop", run.compose_stop())
+            except Exception as e:  # noqa: BLE001
+                problems.append((f"raises:{type(e).__name__}", repr(e)[:200]))
+            got = all_got[mark:]
+            nev = sum(1 for n, _ in got if n == "event")
+            counters["runs"] += 1
+            counters["events_reemitted"] += nev
+            counters["multi_stream_runs"] += int(nstreams >= 2)
+            counters["later_runs_of_one_dispatcher"] += int(rno > 0)
+            tag = "" if rno == 0 else ":later-run"
+            if not problems:
+                p1, _, _ = check_stream([(n, d) for n, d in got], engine_idle=True, validate=True)
+                problems += [(f"stream:{k}{tag}", d) for k, d in p1]
+                desc_name = {d["uid"]: d.get("name") for n, d in got if n == "descriptor"}
+                seqs = {}
+                for n, d in got:
+                    if n == "event":
+                        seqs.setdefault(desc_name.get(d["descriptor"]), []).append(d["seq_num"])
+                stop = next((d for n, d in got if n == "stop"), None)
+                for nm, sq in seqs.items():
+                    if sq != list(range(1, len(sq) + 1)):
+                        problems.append((f"seq_nums-not-1..N:{'multi' if nstreams > 1 else 'single'}-stream{tag}", f"run {rno} stream {nm}: {sq}"))
+                if stop is not None:
+                    ne = stop.get("num_events", {})
+                    exp = {nm: len(sq) for nm, sq in seqs.items()}
+                    for nm, n_ in exp.items():
+                        if ne.get(nm) != n_:
+                            problems.append((f"num_events-wrong{tag}", f"run {rno} stream {nm}: num_events {ne.get(nm)} but {n_} events emitted; full {ne}"))
+                            break
+                    extra = {nm: v for nm, v in ne.items() if nm not in exp and v}
+                    if extra:
+                        problems.append((f"num_events-counts-events-of-another-run{tag}", f"run {rno}: {extra}"))
+                # nothing lost
+                if nev != len(order):
+                    problems.append((f"events-lost-or-duplicated{tag}", f"{nev} re-emitted, {len(order)} received"))
+        got = all_got
         key = f"{kind}|streams={nstreams}|counts={sorted(counts.values()) if not problems or 'counts' in dir() else '?'}"
         if problems:
             seen = set()
